@@ -581,7 +581,7 @@ class DeepDiff(ResultDict, SerializationMixin, DistanceMixin, DeepDiffProtocol, 
                 clean_key = key.decode('utf-8')
             elif self.use_enum_value and isinstance(key, Enum):
                 clean_key = key.value
-            elif isinstance(key, numbers):
+            elif isinstance(key, numbers) and self.significant_digits is not None:
                 type_ = "number" if self.ignore_numeric_type_changes else key.__class__.__name__
                 clean_key = self.number_to_string(key, significant_digits=self.significant_digits,
                                                   number_format_notation=self.number_format_notation)
